@@ -1,11 +1,72 @@
-(* C01 - property theorems only. *)
-From HV Require Import Prelude Tracts C01_Model C01_Check C01_Proofs.
+(* C01 - property theorems only (statements + Print Assumptions). *)
+From HV Require Import Prelude Tracts Tiling C01_Model C01_Check C01_Proofs C01_Bsearch C01_Kernel.
 
-Theorem C01_get_segment_scan_labels :
-  forall prev h parent c start e m,
-  nthZ prev h = Some parent ->
-  sorted parent -> on_c_reach c e parent -> start <= e ->
-  exists out, get_segment_scan 0 h c start e m prev = Ok out /\
-    forall p, start <= p <= e -> label_at out c p = label_at parent c p.
-Proof. exact get_segment_scan_labels. Qed.
-Print Assumptions C01_get_segment_scan_labels.
+(* start_segment's binary search = "first tract of the chromosome whose end >= start" *)
+Theorem C01_bsearch_eq_scan : forall start c l,
+  sorted l -> 0 <= c -> start_segment start c l = Z.of_nat (start_scan start c l).
+Proof. exact bsearch_eq_scan. Qed.
+Print Assumptions C01_bsearch_eq_scan.
+
+(* Copying an interval [start,e] of chromosome c from a parent: every position keeps the parent's
+   label; the result is a strictly increasing run from start-1 to e; every tract but the closing one
+   is literally a parental tract and the interior boundaries are exactly the parental boundaries in
+   [start,e) - nothing lengthened, shortened, relabelled or dropped. *)
+Theorem C01_get_segment_spec : forall prev h parent c start e m,
+  nthZ prev h = Some parent -> wf_call parent c start e ->
+  exists cp st,
+    get_segment 0 h c start e m prev = Ok (cp ++ [mkseg (pop st) c e m]) /\
+    In st parent /\ chrom st = c /\ e <= endc st /\
+    (forall s, In s cp -> In s parent /\ chrom s = c /\ start <= endc s < e) /\
+    sorted cp /\
+    (forall p, start <= p <= e -> label_at (cp ++ [mkseg (pop st) c e m]) c p = label_at parent c p) /\
+    run_ok c (start - 1) (cp ++ [mkseg (pop st) c e m]) e /\
+    map endc cp = filter (fun x => (start <=? x) && (x <? e)) (ends_on c parent).
+Proof. exact get_segment_spec. Qed.
+Print Assumptions C01_get_segment_spec.
+
+(* the hypotheses are satisfiable, on an interval that spans two parental breakpoints *)
+Example C01_wf_call_nonvacuous :
+  wf_call [mkseg 1 1 100 7; mkseg 2 1 200 8; mkseg 1 1 MAXC 9] 1 50 250 /\
+  get_segment 0 0 1 50 250 5 [[mkseg 1 1 100 7; mkseg 2 1 200 8; mkseg 1 1 MAXC 9]]
+    = Ok [mkseg 1 1 100 7; mkseg 2 1 200 8; mkseg 1 1 250 5].
+Proof.
+  split; [|vm_compute; reflexivity].
+  unfold wf_call. split; [cbn; unfold lt_seg, MAXC; cbn; lia|]. split; [|lia].
+  exists (mkseg 1 1 MAXC 9). cbn. unfold MAXC. intuition lia.
+Qed.
+Print Assumptions C01_wf_call_nonvacuous.
+
+Theorem C01_get_segment_founder : forall p h c start e m prev,
+  p <> 0 -> get_segment p h c start e m prev = Ok [mkseg p c e m].
+Proof. exact get_segment_founder. Qed.
+Print Assumptions C01_get_segment_founder.
+
+(* the finite check evaluated on the implementation's output decides the statement for EVERY position *)
+Theorem C01_piecewise_check_complete : forall parent out c a b,
+  labels_agree parent out c a b = true ->
+  forall p, a <= p <= b -> label_at out c p = label_at parent c p.
+Proof. exact piecewise_check_complete. Qed.
+Print Assumptions C01_piecewise_check_complete.
+
+Theorem C01_holds_kernel_sound : forall k parent,
+  holds_kernel k = true -> k_pop k = 0 -> nthZ (k_prev k) (k_h k) = Some parent ->
+  sorted parent -> on_c_reach (k_chrom k) (k_end k) parent -> k_start k <= k_end k ->
+  exists out, k_obs k = Ok out /\
+    (forall p, k_start k <= p <= k_end k -> label_at out (k_chrom k) p = label_at parent (k_chrom k) p) /\
+    shape_ok parent out (k_chrom k) (k_start k) (k_end k) (k_cm k) = true.
+Proof. exact holds_kernel_sound. Qed.
+Print Assumptions C01_holds_kernel_sound.
+
+Theorem C01_holds_kernel_founder : forall k,
+  holds_kernel k = true -> k_pop k <> 0 ->
+  k_obs k = Ok [mkseg (k_pop k) (k_chrom k) (k_end k) (k_cm k)].
+Proof. exact holds_kernel_founder. Qed.
+Print Assumptions C01_holds_kernel_founder.
+
+(* the pinned tree (before fix 3386361) violated the label statement *)
+Example C01_legacy_get_segment_refuted :
+  let parent := [mkseg 1 1 100 7; mkseg 2 1 200 8; mkseg 1 1 MAXC 9] in
+  exists out, get_segment_legacy 0 0 1 0 150 5 [parent] = Ok out /\
+              label_at out 1 150 <> label_at parent 1 150.
+Proof. eexists; split; [vm_compute; reflexivity|vm_compute; congruence]. Qed.
+Print Assumptions C01_legacy_get_segment_refuted.
